@@ -352,6 +352,7 @@ type fsys struct {
 	initErr error
 	start   []prepStep // nil: the file is created with its content by one WriteFile
 	preViol *bfs.Viol  // the two sides already differ in the start state (history starts only)
+	kept    keeper     // every FileInfo the emulated side has handed out since Reset (kept.go)
 }
 
 func (s *fsys) NumOps() int           { return len(s.ops) }
@@ -434,6 +435,7 @@ func (s *fsys) Reset() error {
 
 	s.v = newVFS(s.fsName)
 	_ = s.v.SetUMask(0o022)
+	s.kept.reset(s.v)
 
 	if err := s.v.MkdirAll(s.R, 0o755); err != nil {
 		return fmt.Errorf("avfs MkdirAll(R): %v", err)
@@ -696,6 +698,8 @@ func (s *fsys) observeAvfs(ki []obsItem) (vi []obsItem, poisoned bool) {
 				continue
 			}
 
+			s.kept.keepInfo("Lstat", "Lstat("+via+") of the observation", fi)
+
 			b, rerr := s.v.ReadFile(p)
 			vi = append(vi, obsItem{"content:" + via, "content", via, fmt.Sprintf("%s:%q", errKind(rerr), b)},
 				obsItem{"attr:" + via, "attr", via, "ok:" + s.vAttr(fi)})
@@ -716,6 +720,7 @@ func (s *fsys) observeAvfs(ki []obsItem) (vi []obsItem, poisoned bool) {
 			if serr != nil {
 				vi = append(vi, obsItem{"attr:" + via, "attr", via, errKind(serr)})
 			} else {
+				s.kept.keepInfo("File.Stat", via+".Stat() of the observation", fi)
 				vi = append(vi, obsItem{"attr:" + via, "attr", via, "ok:" + s.vAttr(fi)})
 			}
 
@@ -747,7 +752,9 @@ type concrete struct {
 	Text string `json:"call"`
 }
 
-func (s *fsys) hcall(h hfile, o op, off int64, attr func(fs.FileInfo) string, cwd func() string) res {
+// hcall executes a handle operation on one side; keep (nil on the kernel side) is given every
+// value with reference semantics the call returns.
+func (s *fsys) hcall(h hfile, o op, off int64, attr func(fs.FileInfo) string, cwd func() string, keep func(from, call string, fi fs.FileInfo)) res {
 	switch o.Kind {
 	case "Read":
 		b := make([]byte, o.N)
@@ -791,6 +798,10 @@ func (s *fsys) hcall(h hfile, o op, off int64, attr func(fs.FileInfo) string, cw
 
 		if err == nil {
 			r.Info = "name=" + fi.Name() + " " + attr(fi)
+
+			if keep != nil {
+				keep("File.Stat", o.String(), fi)
+			}
 		}
 
 		return r
@@ -913,6 +924,7 @@ func (s *fsys) pathCall(kernel bool, o op, sz int64) res {
 				r.Info = "name=" + fi.Name() + " " + kAttr(fi)
 			} else {
 				r.Info = "name=" + fi.Name() + " " + s.vAttr(fi)
+				s.kept.keepInfo("Stat", o.String(), fi)
 			}
 		}
 
@@ -1093,6 +1105,8 @@ func (s *fsys) Step(i int) bfs.StepResult {
 	// ---- execute on both sides
 	var rk, rv res
 
+	s.kept.next()
+
 	stBefore := stEmpty
 	if sl != nil {
 		stBefore = sl.st
@@ -1129,12 +1143,12 @@ func (s *fsys) Step(i int) bfs.StepResult {
 		})
 	case o.Kind == "Name" && sl.st == stNil:
 		// (*os.File)(nil).Name() panics as well; the property sanctions a panic here: nothing to compare
-		rv = guarded(func() res { return s.hcall(sl.v, o, off, s.vAttr, s.vcwd) })
+		rv = guarded(func() res { return s.hcall(sl.v, o, off, s.vAttr, s.vcwd, s.kept.keepInfo) })
 
 		return bfs.StepResult{Key: s.key, Outcome: "Name/nil-handle:" + rv.Kind}
 	default:
-		rk = s.hcall(sl.k, o, off, kAttr, s.kcwd)
-		rv = guarded(func() res { return s.hcall(sl.v, o, off, s.vAttr, s.vcwd) })
+		rk = s.hcall(sl.k, o, off, kAttr, s.kcwd, nil)
+		rv = guarded(func() res { return s.hcall(sl.v, o, off, s.vAttr, s.vcwd, s.kept.keepInfo) })
 
 		if o.Kind == "Close" && sl.st == stOpen {
 			sl.st = stClosed
@@ -1278,6 +1292,15 @@ func (s *fsys) Step(i int) bfs.StepResult {
 	}
 
 	s.diff = nd
+
+	// ---- values handed out earlier (kept.go): by the calls of the history and by the
+	// observations, on this instance since its Reset; read again after every call,
+	// whether or not the two sides still agree (the emulation is compared with itself)
+	if !poisoned {
+		for _, kd := range s.kept.check() {
+			add(kd.what, sig("kind", "kept-value", "from", kd.from, "diff", kd.diff), kd.was, kd.now)
+		}
+	}
 
 	broken := poisoned || diverged
 	key := s.key
